@@ -56,7 +56,7 @@ def quiet(f, *a, **k):
 
 # ------------------------------------------------------------------ array variants
 
-VARIANTS = ["f64", "f32", "int", "view", "readonly", "nan"]
+VARIANTS = ["f64", "f32", "int", "view", "readonly", "nan", "fortran"]
 REPR_VARIANTS = ["f32", "int", "view", "readonly", "fortran", "reversed"]
 
 
@@ -115,8 +115,23 @@ def REG():
     from aotools.functions.pupil import circle
     R = {}
 
+    def relayout(o):
+        # the "fortran" variant applies to every array argument of rank >= 2, whatever built it
+        if isinstance(o, np.ndarray):
+            return np.asfortranarray(o) if o.ndim >= 2 and o.flags.writeable else o
+        if isinstance(o, (list, tuple)):
+            return type(o)(relayout(x) for x in o)
+        if isinstance(o, dict) and not any(k in o for k in ("evals", "radp")):       # (not the KL basis dictionaries)
+            return {k: relayout(v) for k, v in o.items()}
+        return o
+
     def reg(name, builder, seeded_global=False):
-        R[name] = (c[name], builder, seeded_global)
+        def built(a, _b=builder):
+            args, kwargs = _b(a)
+            if a.variant == "fortran" and not name.endswith(("calc_seperations_fast", "mirror_covariance_matrix")):
+                args, kwargs = relayout(args), relayout(kwargs)
+            return args, kwargs
+        R[name] = (c[name], built, seeded_global)
 
     # astronomy
     reg("astronomy._astronomy.photons_per_mag", lambda a: ((5.0, a.make((6, 6), ints=True), 0.1, 50.0, 0.01), {}))
